@@ -1,6 +1,4 @@
 package main
 
-func progressRule(w *World, r *Report, e *Engine) {}
-
 type Registration struct{}
 type LispFile struct{}
